@@ -154,6 +154,33 @@ def run_case(ctx):
                                 f"{[g.shape for g in got][:5]}, want boxes {bidx} in that order "
                                 f"{[w.shape for w in want][:5]}")
             keyparts.append(("itersel", fdesc, lv, bdesc))
+    # one selector OBJECT (list / numpy array with from-the-end indices) used to iterate over two plotfiles with
+    # different field counts in turn (A, B, A): every use must yield the fields it designates in THAT plotfile
+    if src.flag("reuse", 4):
+        m2 = world.gen_world(src, tag="w2", max_levels=1, max_boxes=4)
+        path2 = common.materialise(ctx, m2, name="plt00200")[0]
+        o2 = common.open_cooker(ctx, path2)
+        if o2.ok:
+            nmin = min(len(m.fields), len(m2.fields))
+            neg = sorted({-1 - src.draw(f"reuse.e{j}", 0, nmin - 1) for j in range(src.draw("reuse.k", 1, 2))})
+            as_array = bool(src.draw("reuse.array", 0, 1))
+            sel = np.array(neg) if as_array else list(neg)
+            desc0 = f"{'np.array' if as_array else 'list'}({neg})"
+            for which, (pk, mm) in enumerate(((pck, m), (o2.value, m2), (pck, m))):
+                nfx = len(mm.fields)
+                idx = [v + nfx for v in neg]
+                o = run_tool(ctx, lambda: list(pk[sel][0]),
+                             label=f"list(pck_{'ABA'[which]}[shared selector {desc0}][0]) ({nfx} fields)")
+                if not o.ok:
+                    continue        # a refusal of from-the-end indices is not judged here
+                want = sorted(common.arr_digest(mm.data[0][b][..., idx]) for b in range(len(mm.boxes[0])))
+                have = sorted(common.arr_digest(a) for a in o.value)
+                if want != have:
+                    raise Violation({"property": ID, "oracle": "shared-selector", "use": which, "array": as_array},
+                                    f"selector {desc0} used for the {['first', 'second', 'third'][which]} time, to "
+                                    f"iterate over a plotfile with {nfx} fields, yielded other data than fields {idx} "
+                                    f"of every box; the selector object now reads {sel!r}")
+            keyparts.append(("reuse", desc0, len(m2.fields)))
     keyparts.append(sorted(map(str, ctx.sigs)))
     ctx.case_key = common.key_of(keyparts)
     ctx.sample = {"world": m.summary(), "selections": ctx.describe["operations"][1:],
@@ -165,6 +192,8 @@ def _fclass(fsel):
         if fsel.start in (None, 0):
             return "slice0"
         return "slice+"
+    if isinstance(fsel, np.ndarray):
+        return "int-array"
     if isinstance(fsel, list):
         return "names" if isinstance(fsel[0], str) else "ints"
     return "name" if isinstance(fsel, str) else "int"
